@@ -474,19 +474,23 @@ class BinaryZlibFile(io.BufferedIOBase):
         """Write a byte string to the file.
 
         Returns the number of uncompressed bytes written, which is
-        always len(data). Note that due to buffering, the file on disk
-        may not reflect the data written until close() is called.
+        always the size in bytes of data. Note that due to buffering, the
+        file on disk may not reflect the data written until close() is
+        called.
         """
         with self._lock:
             self._check_can_write()
             # Convert data type if called by io.BufferedWriter.
             if isinstance(data, memoryview):
                 data = data.tobytes()
+            # The length of a buffer whose items are larger than one byte
+            # (e.g. an array.array) is not its size in bytes.
+            nbytes = memoryview(data).nbytes
 
             compressed = self._compressor.compress(data)
             self._fp.write(compressed)
-            self._pos += len(data)
-            return len(data)
+            self._pos += nbytes
+            return nbytes
 
     # Rewind the file to the beginning of the data stream.
     def _rewind(self):
